@@ -1,9 +1,11 @@
 package world
 
 import (
+	"bytes"
 	"fmt"
 
 	"go.sia.tech/core/consensus"
+	"go.sia.tech/core/gateway"
 	"go.sia.tech/core/types"
 )
 
@@ -130,5 +132,87 @@ func init() {
 			wl.finishV1(sc.s, &txn, map[types.Hash256]types.UnlockConditions{types.Hash256(id): *ai.uc})
 			return []types.Transaction{txn}, nil, true
 		}, fmt.Sprintf("v1 spend of %v whose signature carries timelock %d (explicit covered fields: %v)", id, T, partial))
+	}})
+}
+
+// ---- C10: a relayed outline is untrusted until the completed block has been
+// validated; completing it must not crash the node
+func init() {
+	registerRows("C10", probeRow{"Z3-outline-extreme-fees", func(w *World, n *Node) {
+		sc := n.fork()
+		if !sc.v2ok() {
+			return
+		}
+		e, ok := pickSC(w, sc.ownedSC(false, true))
+		if !ok {
+			return
+		}
+		t2, ok := w.spendV2(sc.s, []types.SiacoinElement{e}, w.advAddr())
+		if !ok {
+			return
+		}
+		var v1 []types.Transaction
+		if sc.v1ok() {
+			if e1, ok := pickSC(w, sc.ownedSC(true, true)); ok && e1.ID != e.ID {
+				if t1, ok := w.spendV1(sc.s, []types.SiacoinElement{e1}, w.wallets[0].addrs[0].addr); ok {
+					v1 = append(v1, t1)
+				}
+			}
+		}
+		b := w.assemble(sc.s, sc.nextTimestamp(), w.miners[0].addr, v1, []types.V2Transaction{t2}, false)
+		for _, variant := range []string{"v2-fee-max", "v1-fee-max", "v1-fees-max-max", "v2-fee-max-minus-reward"} {
+			bo := gateway.OutlineBlock(b, nil, nil)
+			touched := false
+			for i := range bo.Transactions {
+				pt := &bo.Transactions[i]
+				switch {
+				case pt.V2Transaction != nil && variant == "v2-fee-max":
+					c := pt.V2Transaction.DeepCopy()
+					c.MinerFee = types.MaxCurrency
+					pt.V2Transaction, touched = &c, true
+				case pt.V2Transaction != nil && variant == "v2-fee-max-minus-reward":
+					c := pt.V2Transaction.DeepCopy()
+					c.MinerFee = types.MaxCurrency.Sub(sc.s.BlockReward()).Add(types.NewCurrency64(1))
+					pt.V2Transaction, touched = &c, true
+				case pt.Transaction != nil && variant == "v1-fee-max":
+					c := *pt.Transaction
+					c.MinerFees = []types.Currency{types.MaxCurrency}
+					pt.Transaction, touched = &c, true
+				case pt.Transaction != nil && variant == "v1-fees-max-max":
+					c := *pt.Transaction
+					c.MinerFees = []types.Currency{types.MaxCurrency, types.MaxCurrency}
+					pt.Transaction, touched = &c, true
+				}
+			}
+			if !touched {
+				continue
+			}
+			var buf bytes.Buffer
+			enc := types.NewEncoder(&buf)
+			gateway.VerifEncodeOutline(enc, &bo)
+			enc.Flush()
+			var got gateway.V2BlockOutline
+			d := types.NewBufDecoder(buf.Bytes())
+			if p := guard(func() { gateway.VerifDecodeOutline(d, &got) }); p != "" {
+				w.violate("C10", "decode-outline-panic", p)
+				return
+			}
+			if d.Err() != nil {
+				continue
+			}
+			w.stats.Inc("probe.Z3-outline-" + variant)
+			w.stats.Inc("probe.crash")
+			w.stats.Inc("probe.rows-run")
+			var cb types.Block
+			if p := guard(func() { cb, _ = got.Complete(sc.s, nil, nil) }); p != "" {
+				w.violate("C10", "outline-complete-panic", fmt.Sprintf("completing a relayed outline (%s) panicked: %s", variant, p))
+				return
+			}
+			// and the completed block goes to validation like any other
+			if p := guard(func() { consensus.ValidateBlock(sc.s, cb, sc.supplement(cb)) }); p != "" {
+				w.violate("C10", "validate-panic", fmt.Sprintf("ValidateBlock panicked on a block completed from an outline (%s): %s", variant, p))
+				return
+			}
+		}
 	}})
 }
